@@ -174,10 +174,7 @@ def spaces(tier, variant, seed):
         for args in itertools.product(*doms):
             if not consistent(fn, grp, args):
                 continue
-            try:
-                if not api.precondition(fn, args):
-                    continue
-            except Exception:
+            if not api.precondition(fn, args):      # an exception here is a harness error and must surface, never skip cases silently
                 continue
             yield (name, pi_, args, 0)
             if quick and hash(args) % 3:
